@@ -259,7 +259,7 @@ func (c *c11Reg) httpFuzz() {
 		send(srv, "POST", "/register-bidirectional", noPayload, "", false, "no-payload")
 		send(srv, "POST", "/register", noPayload, "", false, "no-payload")
 	}
-	n := vlib.Budget(2500, 120000)
+	n := vlib.Budget(8000, 120000)
 	for i := 0; i < n; i++ {
 		b, kind := c.body(i)
 		srv := servers[c.r.Intn(len(servers))]
@@ -384,7 +384,7 @@ func (c *c11Reg) httpTable() {
 // 2. the processor directly, and what it forwards
 
 func (c *c11Reg) processor() {
-	n := vlib.Budget(4000, 200000)
+	n := vlib.Budget(10000, 150000)
 	for i := 0; i < n; i++ {
 		b, kind := c.body(i)
 		w := &pb.C2SWrapper{}
@@ -424,7 +424,7 @@ func (c *c11Reg) processor() {
 func (c *c11Reg) dnsDirect() {
 	for _, gen := range []uint32{0, 1000000} {
 		s := dnsregserver.NewVerifDNSRegServer(c.proc, gen, c.logger, c.m)
-		n := vlib.Budget(2000, 100000)
+		n := vlib.Budget(5000, 80000)
 		for i := 0; i < n; i++ {
 			b, kind := c.body(i)
 			if c.r.Chance(1, 3) { // mark as bidirectional DNS so that both branches run
@@ -637,18 +637,20 @@ func TestVerifC11Child(t *testing.T) {
 	if err != nil {
 		t.Fatal(err)
 	}
-	real := resp
-	_ = real
 	feed := &feedConn{in: in, next: start, progress: progress}
 	resp.VerifSetTransport(feed)
-	_ = resp.RecvAndRespond(srv.VerifProcessRequest)
-	fmt.Fprintf(progress, "DONE %d\n", feed.answers)
+	callbacks := 0
+	_ = resp.RecvAndRespond(func(b []byte) ([]byte, error) {
+		callbacks++
+		return srv.VerifProcessRequest(b)
+	})
+	fmt.Fprintf(progress, "DONE %d %d\n", feed.answers, callbacks)
 }
 
 func (c *c11Reg) dnsChild(t *testing.T) {
 	priv := c.r.Bytes(32)
 	pub := encryption.PubkeyFromPrivkey(priv)
-	in := c.datagrams(pub, vlib.Budget(3000, 150000))
+	in := c.datagrams(pub, vlib.Budget(10000, 150000))
 	dir := t.TempDir()
 	inPath, progPath := filepath.Join(dir, "in.txt"), filepath.Join(dir, "progress.txt")
 	var sb strings.Builder
@@ -670,7 +672,7 @@ func (c *c11Reg) dnsChild(t *testing.T) {
 		cmd.Stdout = &stderr
 		err := cmd.Run()
 		prog, _ := os.ReadFile(progPath)
-		last, done, answers := -1, false, 0
+		last, done, answers, callbacks := -1, false, 0, 0
 		sc := bufio.NewScanner(bytes.NewReader(prog))
 		for sc.Scan() {
 			l := sc.Text()
@@ -680,7 +682,7 @@ func (c *c11Reg) dnsChild(t *testing.T) {
 				c.out.OracleFail("C11:dns-responder:hang", "a datagram was not dealt with within 2 s", "dns|"+hex.EncodeToString(in[k]))
 			case strings.HasPrefix(l, "DONE "):
 				done = true
-				answers, _ = strconv.Atoi(strings.TrimPrefix(l, "DONE "))
+				_, _ = fmt.Sscanf(l, "DONE %d %d", &answers, &callbacks)
 			default:
 				last, _ = strconv.Atoi(l)
 			}
@@ -689,7 +691,7 @@ func (c *c11Reg) dnsChild(t *testing.T) {
 			c.out.Checked()
 		}
 		if done && err == nil {
-			c.out.Note(fmt.Sprintf("responder child: %d datagrams from #%d, %d answered", last-start+1, start, answers))
+			c.out.Note(fmt.Sprintf("responder child: %d datagrams from #%d, %d answered, %d decrypted and passed to the registrar", last-start+1, start, answers, callbacks))
 			c.out.Count("dns-child:datagrams-fed")
 			return
 		}
@@ -794,11 +796,15 @@ func TestVerifC11Registrar(t *testing.T) {
 	defer out.Close()
 	c := newC11Reg(t, out, "C11-registrar")
 	if rp := vlib.Replay(); rp != "" {
+		// one fixed case so that the driver always has something to answer, then the file
+		w := httptest.NewRecorder()
+		c.newAPI(1, false).register(w, httptest.NewRequest("GET", "/register", nil))
+		out.Case("ingress|register|1|0|0|1|N|ok", fmt.Sprintf("status %d", w.Code), false)
 		c.replay(t, rp)
 		return
 	}
-	c.httpTable()
 	c.httpFuzz()
+	c.httpTable()
 	c.processor()
 	c.dnsDirect()
 	c.dnsChild(t)
